@@ -25,6 +25,7 @@ func init() {
 			{ID: "C07.R2", Min: 2, Doc: "keep before write: keepSafe.Add(buf) dominates Conn.Write(buf) for the same received value; in getRedo every received value goes to keepSafe.Add and GetAll is called only on the drained path", Run: c07r2},
 			{ID: "C07.R3", Min: 4, Doc: "lossless hops: per-case path enumeration of Spool.Writer and Spool.Buffer; Ingest's range loop", Run: c07r3},
 			{ID: "C07.R5", Min: 3, Doc: "the disk queue behind the spool hands back what it was given: reader and writer agree on the record format and segment-roll condition, and the read position only advances after delivery (rules C09.R5 and C09.R2 evaluated for this property as well)", Run: func(c *Check) { c09r5(c); c09r2(c) }},
+			{ID: "C07.R6", Min: 5, Doc: "keep-safe generations: every store into keepSafe.safeRecent is append(safeRecent, …), a fresh make or nil, every store into safeOld is the current safeRecent, a fresh make or nil; after safeOld = safeRecent the recent generation gets a fresh backing array before anything else can append; Add appends its argument; GetAll returns append(safeOld, safeRecent...)", Run: c07r6},
 			{ID: "C07.R4", Min: 2, Doc: "unspool gating: the assignment toUnspool = spool.Out is dominated by the true edges of conn != nil, Spool, !SlowLastLoop, !SlowNow; the other assignment is nil", Run: c07r4},
 		},
 	})
@@ -493,4 +494,132 @@ func c07r4(c *Check) {
 		}
 	}
 	c.Judge(b != nil, "destination.relay unspool case located", c.AtFn(m.fn), "case body found", "unspool case body not found")
+}
+
+func c07r6(c *Check) {
+	recF := c.P.Field("destination", "keepSafe", "safeRecent")
+	oldF := c.P.Field("destination", "keepSafe", "safeOld")
+	pkg := c.P.Pkg("destination").Types
+	isFresh := func(v ssa.Value) bool {
+		switch x := v.(type) {
+		case *ssa.MakeSlice:
+			return true
+		case *ssa.Const:
+			return x.IsNil()
+		case *ssa.Slice:
+			// make([]T, 0, const) is lowered to new [n]T + slice
+			_, ok := x.X.(*ssa.Alloc)
+			return ok
+		}
+		return false
+	}
+	appendOf := func(v ssa.Value, f *types.Var) (*ssa.CallCommon, bool) {
+		call, ok := v.(*ssa.Call)
+		if !ok {
+			return nil, false
+		}
+		b, ok := call.Call.Value.(*ssa.Builtin)
+		if !ok || b.Name() != "append" || !isFieldLoad(call.Call.Args[0], f) {
+			return nil, false
+		}
+		return &call.Call, true
+	}
+	n := 0
+	for _, fn := range c.P.Funcs {
+		if fnPkg(fn) != pkg {
+			continue
+		}
+		fn := fn
+		var aliasStores, freshRecent []*ssa.Store
+		allInstrs(fn, func(in ssa.Instruction) {
+			st, ok := in.(*ssa.Store)
+			if !ok {
+				return
+			}
+			fa, ok := st.Addr.(*ssa.FieldAddr)
+			if !ok {
+				return
+			}
+			switch fieldOfAddr(fa) {
+			case recF:
+				n++
+				_, isApp := appendOf(st.Val, recF)
+				if isFresh(st.Val) {
+					freshRecent = append(freshRecent, st)
+				}
+				c.Judge(isApp || isFresh(st.Val), FuncName(fn)+" store into safeRecent", c.At(in), "append to itself or a fresh buffer", "safeRecent is assigned something that can share its backing array with the previous generation (e.g. safeRecent[:0]): later Adds overwrite the lines safeOld is supposed to retain, so the replay after an outage misses them")
+			case oldF:
+				n++
+				isRec := isFieldLoad(st.Val, recF)
+				if isRec {
+					aliasStores = append(aliasStores, st)
+				}
+				c.Judge(isRec || isFresh(st.Val), FuncName(fn)+" store into safeOld", c.At(in), "the recent generation or a fresh buffer", "safeOld is assigned something other than the recent generation or an empty buffer")
+			}
+		})
+		for _, al := range aliasStores {
+			ok := false
+			for _, fr := range freshRecent {
+				if fr.Block() == al.Block() && instrDominates(al, fr) {
+					ok = true
+				}
+			}
+			if !ok {
+				// every path from the rotation to a return passes a fresh store
+				stop := map[*ssa.BasicBlock]bool{}
+				for _, fr := range freshRecent {
+					if instrDominates(al, fr) {
+						stop[fr.Block()] = true
+					}
+				}
+				ok = len(stop) > 0
+				for b := range reachable(al.Block(), nil, stop) {
+					if stop[b] {
+						continue
+					}
+					if _, isRet := b.Instrs[len(b.Instrs)-1].(*ssa.Return); isRet {
+						ok = false
+					}
+				}
+			}
+			c.Judge(ok, FuncName(fn)+" rotation gives safeRecent a fresh buffer", c.At(al), "safeOld = safeRecent is followed by safeRecent = make(…)", "after safeOld = safeRecent both generations share one backing array: the next Adds overwrite the retained lines")
+		}
+	}
+	if n < 5 {
+		anchorFail("keepSafe: only %d stores into safeRecent/safeOld found", n)
+	}
+	add := c.P.Func("destination", "*keepSafe", "Add")
+	okAdd := false
+	allInstrs(add, func(in ssa.Instruction) {
+		if st, ok := in.(*ssa.Store); ok {
+			if cc, ok := appendOf(st.Val, recF); ok && len(cc.Args) == 2 {
+				if elems, ok := variadicElems(cc.Args[1]); ok && len(elems) == 1 && elems[0] == ssa.Value(add.Params[1]) {
+					okAdd = true
+				}
+			}
+		}
+	})
+	c.Judge(okAdd, "destination.keepSafe.Add appends its argument to the recent generation", c.AtFn(add), "safeRecent = append(safeRecent, buf)", "Add does not append the given line to safeRecent")
+	ga := c.P.Func("destination", "*keepSafe", "GetAll")
+	okGA := false
+	allInstrs(ga, func(in ssa.Instruction) {
+		ret, ok := in.(*ssa.Return)
+		if !ok || len(ret.Results) != 1 {
+			return
+		}
+		res := strip(ret.Results[0]) // a result spilled to a local because of `defer`
+		if cc, ok := appendOf(res, oldF); ok && len(cc.Args) == 2 && isFieldLoad(cc.Args[1], recF) {
+			// the appended result must be computed before the generations are reset
+			okGA = true
+			call := res.(*ssa.Call)
+			allInstrs(ga, func(x ssa.Instruction) {
+				if st, ok := x.(*ssa.Store); ok {
+					if fa, ok := st.Addr.(*ssa.FieldAddr); ok && (fieldOfAddr(fa) == recF || fieldOfAddr(fa) == oldF) && !instrDominates(call, x) {
+						okGA = false
+					}
+				}
+			})
+		}
+	})
+	c.Judge(okGA, "destination.keepSafe.GetAll returns old then recent generation", c.AtFn(ga), "append(safeOld, safeRecent...) taken before both are reset", "GetAll does not return both generations in order (older lines first), or resets them before reading")
 }
